@@ -68,3 +68,20 @@ pub async fn open_on(cfg: &ConnCfg, w: W, io: ScriptIo, proto: Protocol) -> Driv
     let fut = svc.call((io, proto, None));
     Driven::new(fut)
 }
+
+impl ConnCfg {
+    pub fn to_json(&self) -> serde_json::Value {
+        serde_json::json!({"keep_alive_s": self.keep_alive_s, "req_timeout_ms": self.req_timeout_ms, "disc_timeout_ms": self.disc_timeout_ms,
+            "half_closed": self.half_closed, "write_buf": self.write_buf, "shutdown_gate": self.shutdown_gate})
+    }
+    pub fn from_json(v: &serde_json::Value) -> Self {
+        ConnCfg {
+            keep_alive_s: v["keep_alive_s"].as_u64(),
+            req_timeout_ms: v["req_timeout_ms"].as_u64().unwrap_or(0),
+            disc_timeout_ms: v["disc_timeout_ms"].as_u64().unwrap_or(0),
+            half_closed: v["half_closed"].as_bool().unwrap_or(true),
+            write_buf: v["write_buf"].as_u64().map(|x| x as usize),
+            shutdown_gate: v["shutdown_gate"].as_u64().map(|x| x as usize),
+        }
+    }
+}
